@@ -20,6 +20,7 @@
 #include "common.h"
 
 static mpq_QSdata *P = NULL;
+static QSbasis *KEPT = NULL;	/* basis remembered by KEEPBASIS */
 
 static QSbasis *mk_basis (const char *cs, const char *rs)
 {
@@ -116,7 +117,12 @@ int main (int argc, char **argv)
 			int algo = qsx_tok[2][0] == 'D' ? DUAL_SIMPLEX : PRIMAL_SIMPLEX;
 			mpq_t *x = mpq_EGlpNumAllocArray (n + m + 1), *y = mpq_EGlpNumAllocArray (m + 1);
 			QSbasis *B = NULL;
-			if (qsx_ntok >= 5) B = mk_basis (qsx_tok[3], qsx_tok[4]);
+			if (qsx_ntok == 4 && !strcmp (qsx_tok[3], "KEPT"))
+			{
+				if (KEPT) B = mk_basis (KEPT->nstruct ? KEPT->cstat : "-", KEPT->nrows ? KEPT->rstat : "-");
+				if (B && KEPT) { B->cstat[KEPT->nstruct] = 0; B->rstat[KEPT->nrows] = 0; }
+			}
+			else if (qsx_ntok >= 5) B = mk_basis (qsx_tok[3], qsx_tok[4]);
 			else if (qsx_ntok == 4 && !strcmp (qsx_tok[3], "EMPTY")) B = (QSbasis *) calloc (1, sizeof (QSbasis));
 			rv = QSexact_solver (P, x, y, B, algo, &st);
 			printf ("SOLVE EXACT %d %d\n", rv, st);
@@ -142,6 +148,28 @@ int main (int argc, char **argv)
 			QSbasis *B = mpq_QSget_basis (P);
 			fputs ("BASIS", stdout); qsx_print_basis (stdout, B); putchar ('\n');
 			if (B) mpq_QSfree_basis (B);
+		}
+		else if (!strcmp (op, "KEEPBASIS"))
+		{
+			QSbasis *B = mpq_QSget_basis (P);
+			if (KEPT) free_basis (KEPT);
+			KEPT = NULL;
+			if (B)
+			{
+				char *cs = (char *) calloc (B->nstruct + 2, 1), *rs = (char *) calloc (B->nrows + 2, 1);
+				memcpy (cs, B->cstat, B->nstruct); memcpy (rs, B->rstat, B->nrows);
+				KEPT = mk_basis (B->nstruct ? cs : "-", B->nrows ? rs : "-");
+				free (cs); free (rs);
+				mpq_QSfree_basis (B);
+			}
+			printf ("KEEPBASIS %d\n", KEPT ? 1 : 0);
+		}
+		else if (!strcmp (op, "LOADKEPT"))
+		{
+			int rv = -1;
+			if (KEPT && KEPT->nstruct == mpq_QSget_colcount (P) && KEPT->nrows == mpq_QSget_rowcount (P))
+				rv = mpq_QSload_basis_array (P, KEPT->cstat, KEPT->rstat);
+			printf ("LOADKEPT %d\n", rv);
 		}
 		else if (!strcmp (op, "OPTTEST"))
 		{
